@@ -214,7 +214,7 @@ var c13StrFns = []string{"trim", "collapse", "fields", "trimeq", "stripchf", "da
 func runC13Lib(c *Ctx) {
 	bt := c.NewBatch()
 	defer bt.Flush()
-	n := c.N(8000, 200000)
+	n := c.N(20000, 300000)
 	for i := 0; i < n; i++ {
 		if !c.Want("lib-dec", i) {
 			continue
